@@ -13,3 +13,6 @@ use vstd::std_specs::hash::*;
 
 // N1: tracing's `debug!` replaced by a no-op (logging has no effect on results).
 macro_rules! debug { ($($t:tt)*) => {} }
+// N1b: `format!` (used only to build error-message text, which is opaque to every property) replaced by an
+// empty String; Debug/Display formatting of the crate's types is left unverified.
+macro_rules! format { ($($t:tt)*) => { String::new() } }
